@@ -6,6 +6,8 @@ func init() {
 		Trusted:     []string{"go/ssa of the uninstantiated generic method bodies (prog.FuncValue)", "dominating-edge facts and edge-deletion reachability"},
 		Fixtures:    []string{"fm"},
 		SelfTest: []Mutation{
+			{Name: "FlattenBase overwrites the index entry of the target vertex (defect repaired)", File: "model3d/mesh_ops.go",
+				Old: "\t\tv2t.Store(newC, merged)\n", New: "\t\tv2t.Store(newC, v2t.Value(c))\n", Rule: "MI.PATCH", Expect: "FlattenBase"},
 			{Name: "InvertNormals iterates the new mesh (defect F1)", File: "model3d/mesh.go",
 				Old: "\tm1 := NewMesh()\n\tm.Iterate(func(f *Triangle) {\n\t\tf1 := *f\n\t\tf1[0], f1[1] = f1[1], f1[0]", New: "\tm1 := NewMesh()\n\tm1.Iterate(func(f *Triangle) {\n\t\tf1 := *f\n\t\tf1[0], f1[1] = f1[1], f1[0]", Rule: "MI.RECV", Expect: "InvertNormals"},
 			{Name: "hash of -0 differs from +0 (defect F13)", File: "model3d/coords.go",
@@ -27,7 +29,7 @@ func init() {
 			{Name: "mcSearch moves vertices without resetting the vertex index", File: "model3d/mc.go",
 				Old: "\tmesh.vertexToFace = atomic.Value{}\n", New: "\t_ = atomic.Value{}\n", Rule: "MI.INPLACE", Expect: "mcSearch"},
 			{Name: "FlattenBase leaves the old key in the index", File: "model3d/mesh_ops.go",
-				Old: "\t\tv2t.Store(newC, v2t.Value(c))\n\t\tv2t.Delete(c)\n", New: "\t\tv2t.Store(newC, v2t.Value(c))\n", Rule: "MI.INPLACE", Expect: "FlattenBase"},
+				Old: "\t\tv2t.Store(newC, merged)\n\t\tv2t.Delete(c)\n", New: "\t\tv2t.Store(newC, merged)\n", Rule: "MI.INPLACE", Expect: "FlattenBase"},
 		},
 		Run: func(c *Ctx) {
 			pkgs := append(c.libPkgs()[:2:2], c.fixturePkg("fm"))
@@ -48,6 +50,8 @@ func init() {
 			c.runInPlace("MI.INPLACE", "model2d", nil)
 			c.runInPlace("MI.INPLACE", "model3d", c.fixturePkg("fm"))
 			c.floor("MI.INPLACE", 4)
+			c.runIndexPatch("MI.PATCH", c.libPkgs()[:2])
+			c.floor("MI.PATCH", 2)
 		},
 	})
 }
